@@ -183,3 +183,23 @@ func init() {
 func init() {
 	prop("C12", "C12-R6")
 }
+
+func init() {
+	prop("C05", "C05-R3")
+	prop("C03", "C05-R3") // the unrecorded write survives the rollback
+	prop("C04", "C05-R3")
+}
+
+func init() {
+	prop("C11", "C11-R5")
+}
+
+func init() {
+	prop("C15", "C15-R5")
+	prop("C03", "C15-R5")
+}
+
+func init() {
+	prop("C17", "C17-R6")
+	prop("C19", "C17-R6")
+}
